@@ -160,7 +160,7 @@ def _case(seed: int) -> Dict[str, Any]:
     with rt.trace_dir({0: evs}) as d:
         try:
             ta = rt.lib(fails, "load", inp, rt.load_analysis, d)
-            g, success = ta.critical_path_analysis(rank=0, annotation="ProfilerStep", instance_id=inst)
+            g, success = rt.lib(fails, "critical_path_analysis", inp, ta.critical_path_analysis, rank=0, annotation="ProfilerStep", instance_id=inst, _allow=(AssertionError,))
             if not success:
                 return {"n_checks": 0, "fails": [], "nontrivial": False}
             bd = rt.lib(fails, "get_critical_path_breakdown", inp, g.get_critical_path_breakdown)
